@@ -3,6 +3,7 @@ package main
 import (
 	"fmt"
 	"go/token"
+	"go/types"
 	"strings"
 
 	"golang.org/x/tools/go/ssa"
@@ -86,6 +87,59 @@ func ruleC01(w *World, r *Report) {
 		r.ok("R01.2.RELOCK", "receive path", "no mutex is re-acquired while held (calls and printed values under a lock)", "-", fmt.Sprintf("%d calls / printed values examined under a non-empty lockset", sites))
 	}
 	r.floor("R01.2 call sites under a lock", sites, 20)
+	// R01.2 (crash by concurrent map write): a map, slice or field that is written while only the READ side of
+	// an RWMutex is held is written concurrently with the other readers — for a map the runtime ends the
+	// process ("fatal error: concurrent map writes"), which no recover() catches
+	{
+		la := w.Locks()
+		owners := map[string]bool{}
+		for _, f := range w.Funcs {
+			allInstrs(f, func(i ssa.Instruction) {
+				if c, ok := i.(*ssa.Call); ok {
+					if op, mu, _, ok := lockOp(c); ok && op == "RLock" {
+						if nt := fieldOwner(w, mu); nt != nil {
+							owners[nt.Obj().Name()] = true
+						}
+					}
+				}
+			})
+		}
+		nW := 0
+		if len(owners) > 0 {
+			for _, a := range w.accessesOf(owners) {
+				if !a.write || a.fresh || strings.HasPrefix(w.FuncName(a.fn), "test/") {
+					continue
+				}
+				held := la.heldAt[a.ins]
+				var rd *types.Var
+				excl := false
+				for mu, m := range held {
+					if fo := fieldOwner(w, mu); fo == nil || fo != a.owner {
+						continue
+					}
+					if m == modeW {
+						excl = true
+					} else {
+						rd = mu
+					}
+				}
+				if rd == nil && !excl {
+					continue
+				}
+				nW++
+				rdName := "the mutex"
+				if rd != nil {
+					rdName = rd.Name()
+				}
+				r.check(excl, "R01.2.RWLOCK", w.FuncName(a.fn), a.owner.Obj().Name()+"."+a.path+" is written under the write lock", w.Pos(posNear(a.ins)), "exclusive lock held", "the "+a.what+" of "+a.owner.Obj().Name()+"."+a.path+" happens with only the read side of "+rdName+" held: other holders of the read lock (another association releasing its TEIDs at the same time) write or read it concurrently — for a map this is 'fatal error: concurrent map writes' and the whole agent is gone")
+			}
+		}
+		if len(owners) == 0 {
+			r.trivial("R01.2.RWLOCK", "receive path", "no RWMutex read locks in the repository", "-", "nothing to check")
+		} else {
+			r.floor("R01.2.RWLOCK guarded writes under a lock of their owner", nW, 1)
+		}
+	}
 
 	// the go-pfcp version the library facts were confirmed for
 	if p := w.Package(pfcpPkg); p != nil {
